@@ -156,15 +156,8 @@ def _handle_ConnectionUp (event):
 def _handle_LinkEvent (event):
   # When links change, update spanning tree
 
-  (dp1,p1),(dp2,p2) = event.link.end
-  if event.removed and _prev[dp1][p1] is False:
-    if _prev[dp2][p2] is False:
-      # We're disabling this link; who cares if it's down?
-      # (If it's coming up, it may be the missing direction of a link
-      #  we have only seen one way so far, so we do care.)
-      #log.debug("Ignoring link status for %s", event.link)
-      return
-
+  # (Even when a link we had disabled goes away: its ports are edge ports
+  #  now and must flood again)
   _update_tree()
 
 
